@@ -31,8 +31,8 @@ pub static DEF: CheckDef = CheckDef {
 
 fn plan(t: Tier) -> Vec<ClassPlan> {
     let k = match t {
-        Tier::Quick => 1,
-        Tier::Thorough => 40,
+        Tier::Quick => 4,
+        Tier::Thorough => 120,
     };
     vec![
         ClassPlan { class: "random", cases: 12_000 * k, min_len: 0, max_len: 80 },
